@@ -135,6 +135,7 @@ def req : P Req := do
     match t with
     | "new" => return .join rid ots .new
     | "bogus" => return .join rid ots .bogus
+    | "near" => do let _ ← nat; let _ ← nat; return .join rid ots .bogus   -- almost the id of a live session: names none
     | "id" => return .join rid ots (.id (← nat))
     | _ => failure
   | "entityAdd" => return .entityAdd (← nat) (← nat) (← bool) (← nat) (← optNat)
